@@ -159,6 +159,7 @@ CLI_CONFIGS = {
     'multivalue': ('plain', ['--data_source', 'csv-raw', '--feature_set_focus', 'm,a', '--explode_multivalue_features', 'm', '--target_ranking_only', 'False', '--heuristic', 'MI-numba-randomized']),
     'transformers': ('transformers', ['--data_source', 'ob-csv', '--transformers', 'minimal', '--target_ranking_only', 'False', '--heuristic', 'MI-numba-randomized']),
     'ratio': ('plain', ['--data_source', 'csv-raw', '--target_ranking_only', 'False', '--heuristic', 'MI-numba-randomized', '--mi_stratified_sampling_ratio', '0.6']),
+    'interactions_pearson': ('plain', ['--data_source', 'csv-raw', '--interaction_order', '2', '--target_ranking_only', 'True', '--heuristic', 'correlation-Pearson']),
     'capped': ('plain', ['--data_source', 'csv-raw', '--target_ranking_only', 'False', '--heuristic', 'MI-numba-randomized', '--combination_number_upper_bound', '4', '--minibatch_size', '10']),
     'subfeature_noise': ('plain', ['--data_source', 'csv-raw', '--subfeature_mapping', 'a->b', '--include_noise_baseline_features', 'True', '--target_ranking_only', 'True', '--heuristic', 'MI']),
 }
